@@ -77,7 +77,25 @@ def scenarios(tier):
                         if tier == "quick" and filt and (times == 3 or (ai % 3 != 0)):
                             continue
                         S.append(dict(pre=pre, ai=ai, times=times, rc=rc, filt=filt))
+    # paired-end: the info file describes R1 only, whatever is done to R2 (R2-only modifiers and adapters included)
+    for pre in ([], [PRE[0]], [PRE[2]], [PRE[1], PRE[4]]):
+        for ai in (None, 0, 2, 5, 9):
+            for times in (1, 2):
+                for r2 in R2OPTS:
+                    if ai is None and "-A" not in r2:
+                        continue
+                    if tier == "quick" and times == 2 and ai in (0, 5):
+                        continue
+                    S.append(dict(pre=pre, ai=ai, times=times, rc=False, filt=[], paired=r2))
     return S
+
+
+R2OPTS = [[], ["-U", "3"], ["-A", "a1=ACGTACGG"], ["-U", "2", "-A", "a1=ACGTACGG"], ["-U", "-4", "-G", "g1=TTGCAGCA", "-Q", "10,10"]]
+
+
+def mates(recs):
+    n = len(recs)
+    return [(r[0], recs[(k * 5 + 3) % n][1], uq(len(recs[(k * 5 + 3) % n][1]))) for k, r in enumerate(recs)]
 
 
 def shards(tier):
@@ -94,6 +112,9 @@ def run_shard(d):
     inp = os.path.join(wd, "in.fq")
     clih.write_text(inp, clih.fastq_text(recs))
     out = os.path.join(wd, "o.fq")
+    inp2 = os.path.join(wd, "in2.fq")
+    clih.write_text(inp2, clih.fastq_text(mates(recs)))
+    out2 = os.path.join(wd, "o2.fq")
     infop = os.path.join(wd, "info.tsv")
     res = dict(evals=0, runs=0, nontrivial=0, rows=0, viol=common.Viols(cap=3), samples=[])
     V = res["viol"]
@@ -102,12 +123,16 @@ def run_shard(d):
         argv = ["-e", repr(RATE), "-O", "4", "--times", str(sc["times"])]
         for p in sc["pre"]:
             argv += p
-        for f, s in ADSETS[sc["ai"]]:
+        for f, s in (ADSETS[sc["ai"]] if sc["ai"] is not None else []):
             argv += [f, s]
         if sc["rc"]:
             argv += ["--revcomp"]
         argv += sc["filt"]
-        r = clih.run_cli(argv + ["--info-file", infop, "-o", out, inp])
+        if sc.get("paired") is not None:
+            argv += sc["paired"]
+            r = clih.run_cli(argv + ["--info-file", infop, "-o", out, "-p", out2, inp, inp2])
+        else:
+            r = clih.run_cli(argv + ["--info-file", infop, "-o", out, inp])
         res["runs"] += 1
         case = dict(argv=argv)
         if r.exit != 0:
@@ -139,7 +164,7 @@ def _judge(V, res, case, rows, recs, byname, sc, pre_kind):
         if base not in groups:
             order.append(base)
         groups.setdefault(base, []).append(row)
-    sig = f"pre-{pre_kind}"
+    sig = f"pre-{pre_kind}" + (":paired" if sc.get("paired") is not None else "")
     for name, seq, qual in recs:
         res["evals"] += 1
         g = groups.get(name)
@@ -236,7 +261,8 @@ def run(tier):
     return R.finish(tot.get("evals", 0), tot.get("nontrivial", 0),
                     "scenarios = 11 sets of pre-adapter modifications (subsets of -u 3, -u -2, -q 10,10, -q 10, --nextseq-trim 10) x 10 adapter "
                     "sets (3', 5', anywhere, anchored, wildcard, two linked) x --times {1,2,3} x --revcomp on/off x filters that discard "
-                    "reads; corpus of ~100 reads with position-unique qualities; every info-file row is checked; non-trivial = read has a match row",
+                    "reads; plus paired-end runs (R2-only cuts/adapters/quality trimming, adapters on R1, R2 or both: the rows describe R1); "
+                    "corpus of ~100 reads with position-unique qualities; every info-file row is checked; non-trivial = read has a match row",
                     True)
 
 
@@ -247,6 +273,9 @@ def replay(path):
     c = v["case"]
     if "read" not in c or not isinstance(c["read"], list):
         return 1
+    if "-U" in c["argv"] or "-A" in c["argv"] or "-G" in c["argv"]:
+        import sys
+        return common.replay_by_rerun(sys.modules[__name__], PROP, path)
     wd = clih.fresh_dir("c17r")
     inp = os.path.join(wd, "in.fq")
     clih.write_text(inp, clih.fastq_text([tuple(c["read"])]))
